@@ -128,6 +128,7 @@ type authObs struct {
 	Method   string            `json:"method"`
 	Target   string            `json:"target"`
 	JSON     bool              `json:"accept_json,omitempty"`
+	Fwd      forward           `json:"hostile_forwarding"`
 	Status   int               `json:"status"`
 	Headers  map[string]string `json:"observed_security_headers"`
 	Cookies  []string          `json:"observed_set_cookie,omitempty"`
@@ -288,8 +289,11 @@ func authJudge(rep *vh.Report, idx int, c *authCfg, o *authObs, w *wresp, reqHos
 			wantDom, kind = hostNoPort(reqHost), "request-host"
 		}
 		rep.Count("auth_cookie_domain_checked_"+kind, 1)
+		if o.Fwd.Via != "" {
+			rep.Count("auth_cookie_domain_checked_under_hostile_header", 1)
+		}
 		if !strings.EqualFold(strings.TrimPrefix(ck.Domain, "."), wantDom) {
-			bad("Domain", "not-"+kind)
+			bad("Domain", "not-"+kind+" via="+o.Fwd.via())
 		}
 	}
 }
@@ -367,8 +371,16 @@ func runAuthCfg(rep *vh.Report, env vh.Env, c *authCfg, lo, n, only int) {
 				hdrs = append(hdrs, [2]string{"X-Client-Secret", as.ClientSecret})
 			}
 		}
+		fwd := pickForward(r, as.Host)
 		send := func(flavour, m, target string, cookies []string, body []byte) *wresp {
-			rq := wreq{Method: m, Host: as.Host, Target: target, Headers: append([][2]string(nil), hdrs...), Cookies: cookies, Body: body}
+			rq := wreq{Method: m, Host: as.Host, Target: target, Headers: append(append([][2]string(nil), hdrs...), fwd.Headers...), Cookies: cookies, Body: body}
+			if fwd.AbsForm {
+				// the authority of an absolute-form target is the effective host; the Host header is hostile
+				rq.Target, rq.Host = "http://"+as.Host+target, fwd.Value
+			}
+			if fwd.Via != "" {
+				rep.Count("auth_requests_with_hostile_"+fwd.Via, 1)
+			}
 			if body != nil {
 				rq.Headers = append(rq.Headers, [2]string{"Content-Type", "application/x-www-form-urlencoded"})
 			}
@@ -377,7 +389,7 @@ func runAuthCfg(rep *vh.Report, env vh.Env, c *authCfg, lo, n, only int) {
 				rep.Count("auth_client_errors_no_response", 1)
 				return nil
 			}
-			o := &authObs{Cfg: c, Endpoint: ep, Flavour: flavour, Method: m, Target: target, JSON: asJSON}
+			o := &authObs{Cfg: c, Endpoint: ep, Flavour: flavour, Method: m, Target: target, JSON: asJSON, Fwd: fwd}
 			if len(o.Target) > 300 {
 				o.Target = o.Target[:300] + "..."
 			}
